@@ -129,11 +129,20 @@ func genHistory(r *rand.Rand, fullDelta bool, small bool, feat map[string]bool) 
 	if !small && r.Intn(5) == 0 {
 		ntr = 1 + r.Intn(8)
 	}
+	many := false
+	if !small && r.Intn(25) == 0 { // track counts around the one-byte boundary of the 16-bit header field
+		ntr = []int{255, 256, 257, 300}[r.Intn(4)]
+		many = true
+		feat["many_tracks"] = true
+	}
 	for t := 0; t < ntr; t++ {
 		h = append(h, Op{Op: "track"})
 		nev := r.Intn(8)
 		if !small && r.Intn(3) == 0 {
 			nev = r.Intn(60)
+		}
+		if many {
+			nev = r.Intn(2)
 		}
 		var prev byte
 		closed := false
@@ -220,6 +229,10 @@ func alienChunk(r *rand.Rand, feat map[string]bool) []byte {
 		typ[3] = 'x'
 	}
 	n := []int{0, 1, 4, 7, 8, 9, 64, r.Intn(300)}[r.Intn(8)]
+	if r.Intn(60) == 0 { // a chunk length that needs more than 16 bits
+		n = 65536 + r.Intn(3000)
+		feat["alien_over_64k"] = true
+	}
 	body := payload(r, n, false)
 	if n >= 8 && r.Intn(2) == 0 { // the bytes "MTrk" + a length inside an alien body must not confuse anyone
 		copy(body, []byte("MTrk\x00\x00\x00\x04"))
@@ -236,6 +249,10 @@ func genValidFile(r *rand.Rand, big bool, feat map[string]bool) []byte {
 		ntr = 1 + r.Intn(4)
 		if big && r.Intn(4) == 0 {
 			ntr = 1 + r.Intn(16)
+		}
+		if big && r.Intn(30) == 0 {
+			ntr = []int{255, 256, 257, 300}[r.Intn(4)]
+			feat["many_tracks"] = true
 		}
 	}
 	var div []byte
@@ -266,6 +283,9 @@ func genValidFile(r *rand.Rand, big bool, feat map[string]bool) []byte {
 		nev := r.Intn(10)
 		if big && r.Intn(3) == 0 {
 			nev = r.Intn(300)
+		}
+		if ntr > 100 {
+			nev = r.Intn(2)
 		}
 		var rs byte // running status in effect
 		for e := 0; e < nev; e++ {
